@@ -75,8 +75,34 @@ def seeded():
     return "\n".join(out) + "\n"
 
 
+def numbers():
+    import glob as g
+    nthm = 0
+    for f in g.glob(os.path.join(V, "coq", "Properties", "*.v")):
+        nthm += len(re.findall(r"^Theorem ", open(f).read(), flags=re.M))
+    loc = 0
+    for root, _, files in os.walk(os.path.join(V, "coq")):
+        if "scratch" in root:
+            continue
+        for f in files:
+            if f.endswith(".v"):
+                loc += sum(1 for _ in open(os.path.join(root, f), errors="replace"))
+    fixes = [l for l in subprocess.check_output(["git", "-C", "/repo", "log", "--oneline"]).decode().splitlines() if " fix:" in l]
+    nk = nf = 0
+    for f in g.glob(os.path.join(V, "known_findings", "*.json")):
+        d = json.load(open(f))
+        for e in (d["findings"] if isinstance(d, dict) else d):
+            nk += e["status"] == "known"
+            nf += e["status"] == "fixed"
+    return {"KLOC": str(round(loc / 1000)), "NTHM": str(nthm), "NFIX": str(len(fixes)), "NFIXED": str(nf), "NKNOWN": str(nk), "NENTRIES": str(nk + nf)}
+
+
 def main():
-    parts = [rd("design_head.md"), "---------------------------------------------------------------------------\n\n## 5. Per-property status\n",
+    nums = numbers()
+    head = rd("design_head.md")
+    for k, v in nums.items():
+        head = head.replace("{{%s}}" % k, v)
+    parts = [head, "---------------------------------------------------------------------------\n\n## 5. Per-property status\n",
              rd("design_props_A.md"), rd("design_props_B.md"), rd("design_tail.md"), findings(),
              "\n---------------------------------------------------------------------------\n", seeded(),
              "\n---------------------------------------------------------------------------\n", rd("design_limits.md"),
